@@ -101,16 +101,23 @@ impl Unreal2Protocol {
         // error).
 
         let mut mutators_and_rules = MutatorsAndRules::default();
+        // Packets have no sequence number: remember them to ignore the ones delivered twice
+        let mut received_packets: Vec<Vec<u8>> = Vec::new();
         {
             let data = self.get_request_data(PacketKind::MutatorsAndRules)?;
             let mut buffer = Buffer::<LittleEndian>::new(&data);
             // TODO: Maybe put consume headers in individual packet parse methods
             Self::consume_response_headers(&mut buffer, PacketKind::MutatorsAndRules)?;
-            mutators_and_rules.parse(&mut buffer)?
+            mutators_and_rules.parse(&mut buffer)?;
+            received_packets.push(data);
         };
 
         // We could receive multiple packets in response
         while let Ok(data) = self.socket.receive(Some(PACKET_SIZE)) {
+            if received_packets.contains(&data) {
+                continue;
+            }
+
             let mut buffer = Buffer::<LittleEndian>::new(&data);
 
             let r = Self::consume_response_headers(&mut buffer, PacketKind::MutatorsAndRules);
@@ -120,6 +127,7 @@ impl Unreal2Protocol {
             }
 
             mutators_and_rules.parse(&mut buffer)?;
+            received_packets.push(data);
         }
 
         Ok(mutators_and_rules)
@@ -141,12 +149,20 @@ impl Unreal2Protocol {
         let mut players_data = self.get_request_data(PacketKind::Players);
         // Players are non required so if we don't get any responses we continue to
         // return
+        // Packets have no sequence number: remember them to ignore the ones delivered twice
+        let mut received_packets: Vec<Vec<u8>> = Vec::new();
         while let Ok(data) = players_data {
+            if received_packets.contains(&data) {
+                players_data = self.socket.receive(Some(PACKET_SIZE));
+                continue;
+            }
+
             let mut buffer = Buffer::<LittleEndian>::new(&data);
 
             Self::consume_response_headers(&mut buffer, PacketKind::Players)?;
 
             players.parse(&mut buffer)?;
+            received_packets.push(data);
 
             if let Some(num_players) = num_players {
                 if players.total_len() >= num_players {
